@@ -31,6 +31,7 @@ SNAPSHOT = dict(
     gen_make_zombie=["PLoad VLast VHead FPrev", "PStore VOb FNext VHead", "PStore VOb FPrev VLast",
                      "PStore VLast FNext VOb", "PStore VHead FPrev VOb"],
     gen_make_zombie_guarded=True,
+    gen_gil_ensure_incr_unlocked=True, gen_gil_ensure_incr_locked=True, gen_gil_release_plain=True,
     gen_detach=["PLoad VP VOb FPrev", "PLoad VN VOb FNext", "PStore VP FNext VN", "PStore VN FPrev VP",
                 "PStoreNull VOb FPrev", "PStoreNull VOb FNext"])
 
@@ -102,7 +103,43 @@ def extract_pointer_code():
             continue
         prog.append(_pointer_stmt(st))
     out["gen_detach"] = prog
+    # gil_ensure: on which branches an existing thread state gets its gilstate_counter incremented
+    m = re.search(r"static\s+PyGILState_STATE\s+gil_ensure\s*\(\s*void\s*\)\s*\{", text)
+    if not m:
+        raise U("gil_ensure not found")
+    g = " ".join(text[m.end():text.index("static void gil_release", m.end())].split())
+    mm = re.search(r"if \(ts != NULL\) \{(.*?)if \(ts != get_current_ts\(\)\) \{(.*?)return PyGILState_UNLOCKED; \} "
+                   r"else \{(.*?)return PyGILState_LOCKED; \} \} else \{", g)
+    if not mm:
+        raise U("gil_ensure: branch structure not recognised")
+    pre, unl, lck = mm.group(1), mm.group(2), mm.group(3)
+    for part in (pre, unl, lck):
+        rest = part.replace("ts->gilstate_counter++;", "").replace("PyEval_RestoreThread(ts);", "").strip()
+        if rest:
+            raise U("gil_ensure: unexpected statement %r" % rest)
+    cnt = lambda part: part.count("ts->gilstate_counter++;")
+    out["gen_gil_ensure_incr_unlocked"] = (cnt(pre) + cnt(unl) == 1) and "PyEval_RestoreThread(ts);" in unl
+    out["gen_gil_ensure_incr_locked"] = (cnt(pre) + cnt(lck) == 1) and "PyEval_RestoreThread" not in lck
+    r = " ".join(_plain_body(text, r"static\s+void\s+gil_release\s*\(\s*PyGILState_STATE\s+oldstate\s*\)\s*\{").split())
+    out["gen_gil_release_plain"] = (r == "PyGILState_Release(oldstate);")
     return out
+
+
+def _plain_body(text, header):
+    m = re.search(header, text)
+    if not m:
+        raise U("function not found: " + header)
+    i = m.end() - 1
+    depth, j = 0, i
+    while j < len(text):
+        if text[j] == "{":
+            depth += 1
+        elif text[j] == "}":
+            depth -= 1
+            if depth == 0:
+                return text[i + 1:j]
+        j += 1
+    raise U("unbalanced braces")
 
 
 def gen_text(f, origin):
@@ -112,9 +149,17 @@ def gen_text(f, origin):
             "From Coq Require Import List.\nImport ListNotations.\nFrom Cffi Require Import C36.Model.\n"
             "Definition gen_make_zombie : list pstmt :=\n  [%s].\n"
             "Definition gen_make_zombie_guarded : bool := %s.\n"
-            "Definition gen_detach : list pstmt :=\n  [%s].\n") % (
+            "Definition gen_detach : list pstmt :=\n  [%s].\n"
+            "(* gil_ensure with an existing thread state: ts->gilstate_counter++ happens exactly once on the path that\n"
+            "   returns PyGILState_UNLOCKED (after/before PyEval_RestoreThread) resp. PyGILState_LOCKED (ts already\n"
+            "   current: the callback was entered with the GIL held); gil_release is PyGILState_Release(oldstate) *)\n"
+            "Definition gen_gil_ensure_incr_unlocked : bool := %s.\n"
+            "Definition gen_gil_ensure_incr_locked : bool := %s.\n"
+            "Definition gen_gil_release_plain : bool := %s.\n") % (
                 origin, "; ".join(f["gen_make_zombie"]), "true" if f["gen_make_zombie_guarded"] else "false",
-                "; ".join(f["gen_detach"]))
+                "; ".join(f["gen_detach"]), "true" if f["gen_gil_ensure_incr_unlocked"] else "false",
+                "true" if f["gen_gil_ensure_incr_locked"] else "false",
+                "true" if f["gen_gil_release_plain"] else "false")
 
 
 def regen(ctx):
@@ -147,9 +192,11 @@ def gen_case(rng, n, length):
                 cands.append(("cb", t))
                 if st[t] == "idle":
                     cands.append(("exit", t))
+                    cands.append(("own", t))
             elif st[t] == "incb":
                 cands.append(("end", t))
                 cands.append(("end", t))
+                cands.append(("nest", t))
                 if t in has_canary and rng.random() < 0.5:
                     cands.append(("drop", t))
         if not cands:
@@ -159,9 +206,13 @@ def gen_case(rng, n, length):
         if k == "drop":
             has_canary.discard(t)
             continue
+        if k in ("nest", "own"):
+            continue
         if k == "cb" and st[t] == "new":
             has_canary.add(t)
         st[t] = {"cb": "incb", "end": "idle", "exit": "exited"}[k]
+    if rng.random() < 0.3:
+        ev.append(["ownfresh", 0])
     leave_alive = rng.random() < 0.3
     for t in range(n):
         if st[t] == "incb":
@@ -186,7 +237,22 @@ def directed():
                           ["end", 4], ["exit", 1], ["exit", 4]]),
         # a thread that exits without ever calling back, and threads left alive at interpreter shutdown
         dict(n=3, events=[["exit", 0], ["cb", 1], ["end", 1], ["cb", 2], ["pycb", 0], ["end", 2]]),
-    ] + drop_cases()
+    ] + drop_cases() + gil_held_cases()
+
+
+def gil_held_cases():
+    """callbacks entered with the GIL already held: nested in an outer callback of the same foreign thread, and
+    inside the thread's own PyGILState_Ensure/Release bracket; then more callbacks (same thread state?), exits"""
+    return [
+        dict(n=2, events=[["cb", 0], ["nest", 0], ["end", 0], ["cb", 0], ["end", 0], ["cb", 0], ["nest", 0], ["nest", 0],
+                          ["end", 0], ["cb", 0], ["end", 0], ["exit", 0], ["cb", 1], ["end", 1], ["exit", 1]]),
+        dict(n=2, events=[["cb", 0], ["end", 0], ["own", 0], ["cb", 0], ["end", 0], ["own", 0], ["own", 0], ["cb", 0],
+                          ["nest", 0], ["end", 0], ["exit", 0], ["cb", 1], ["end", 1], ["own", 1], ["cb", 1], ["end", 1],
+                          ["ownfresh", 0], ["exit", 1]]),
+        dict(n=3, events=[["cb", 0], ["cb", 1], ["nest", 1], ["nest", 0], ["end", 1], ["own", 1], ["end", 0], ["cb", 1],
+                          ["drop", 1], ["nest", 1], ["end", 1], ["own", 1], ["cb", 1], ["end", 1], ["exit", 1],
+                          ["cb", 2], ["end", 2], ["ownfresh", 1], ["exit", 0], ["exit", 2]]),
+    ]
 
 
 def drop_cases():
@@ -212,7 +278,7 @@ def generate(ctx):
     return cases
 
 
-KIND = {"cb": 0, "end": 1, "exit": 2, "drop": 4}
+KIND = {"cb": 0, "end": 1, "exit": 2, "drop": 4, "nest": 5, "own": 6}
 
 
 def fpn(m, b, l):
@@ -271,6 +337,11 @@ def evaluate(ctx, cases):
         # the property on the implementation: one token per thread, persistent, never another thread's
         first_of = {}
         for ei, (e, o) in enumerate(zip(model_events, r["obs"])):
+            if e[0] in ("nest", "own"):
+                tok = o[0] - 1
+                if first_of.get(e[1]) != tok:
+                    bad.append("thread %d: a callback entered with the GIL held saw thread-local token %d, its other "
+                               "callbacks saw %r (thread state not persistent)" % (e[1], tok, first_of.get(e[1])))
             if e[0] == "cb":
                 tok = o[0] - 1
                 if e[1] in first_of and first_of[e[1]] != tok:
